@@ -57,6 +57,35 @@ func (it *Interp) Reset() {
 
 func resName(s string) string { return "r" + s }
 
+var resTypes = map[string]base.ResourceType{
+	"common": base.ResTypeCommon, "web": base.ResTypeWeb, "rpc": base.ResTypeRPC, "gateway": base.ResTypeAPIGateway,
+	"dbsql": base.ResTypeDBSQL, "cache": base.ResTypeCache, "mq": base.ResTypeMQ,
+}
+
+// typeOpts turns the optional trailing token `type=<t>[,<t>…]` into one entry-option list per caller
+// (no token: api.Entry is called without WithResourceType).
+func typeOpts(tok string, n int) [][]sentinel.EntryOption {
+	out := make([][]sentinel.EntryOption, n)
+	if tok == "" {
+		return out
+	}
+	if !strings.HasPrefix(tok, "type=") {
+		panic("bad type token " + tok)
+	}
+	names := strings.Split(tok[5:], ",")
+	if len(names) != n {
+		panic("bad type token " + tok)
+	}
+	for i, nm := range names {
+		t, ok := resTypes[nm]
+		if !ok {
+			panic("bad resource type " + nm)
+		}
+		out[i] = []sentinel.EntryOption{sentinel.WithResourceType(t)}
+	}
+	return out
+}
+
 func parseRule(s string) *flow.Rule {
 	f := strings.Split(s, ",")
 	if len(f) != 4 {
@@ -120,10 +149,20 @@ func (it *Interp) Step(t []string, op string) string {
 		}
 		return fmt.Sprintf("ok %d", len(flow.GetRules()))
 	case "entry":
-		e, b := sentinel.Entry(resName(t[1]), sentinel.WithBatchCount(uint32(vh.U(t[2]))))
+		tok := ""
+		if len(t) > 3 {
+			tok = t[3]
+		}
+		opts := append(typeOpts(tok, 1)[0], sentinel.WithBatchCount(uint32(vh.U(t[2]))))
+		e, b := sentinel.Entry(resName(t[1]), opts...)
 		return it.decision(e, b)
 	case "par":
-		return it.par(resName(t[1]), strings.Split(t[2], ","), strings.Split(t[3], ","))
+		tok := ""
+		if len(t) > 4 {
+			tok = t[4]
+		}
+		bs := strings.Split(t[2], ",")
+		return it.par(resName(t[1]), bs, strings.Split(t[3], ","), typeOpts(tok, len(bs)))
 	case "sum":
 		n := stat.GetResourceNode(resName(t[1]))
 		if n == nil {
@@ -137,15 +176,15 @@ func (it *Interp) Step(t []string, op string) string {
 // par runs len(bs) entries of res as goroutines under the given schedule: the first occurrence of a
 // thread id lets that goroutine run its prepare and rule-check slots (it parks at the yield point), the
 // second lets it run the statistic slots and Exit.
-func (it *Interp) par(res string, bs, sched []string) string {
+func (it *Interp) par(res string, bs, sched []string, topts [][]sentinel.EntryOption) string {
 	ths := make([]*thread, len(bs))
 	for i := range bs {
 		th := &thread{resume: make(chan struct{}), parked: make(chan struct{}), done: make(chan string)}
 		ths[i] = th
-		batch := uint32(vh.U(bs[i]))
+		opts := append(topts[i], sentinel.WithBatchCount(uint32(vh.U(bs[i]))))
 		go func() {
 			<-th.resume
-			e, b := sentinel.Entry(res, sentinel.WithBatchCount(batch))
+			e, b := sentinel.Entry(res, opts...)
 			th.done <- it.decision(e, b)
 		}()
 	}
